@@ -435,7 +435,7 @@ func (m *Manager) FlushMemTables() error {
 	m.flushMu.Lock()
 	defer m.flushMu.Unlock()
 
-	verifhook.At1("sm.flush.begin", uint64(len(m.immutableMTs)))
+	verifhook.At("sm.flush.begin")
 	defer verifhook.At("sm.flush.end")
 
 	// Track operation
@@ -446,6 +446,7 @@ func (m *Manager) FlushMemTables() error {
 	m.mu.RLock()
 	immutables := append([]*memtable.MemTable(nil), m.immutableMTs...)
 	m.mu.RUnlock()
+	verifhook.At1("sm.flush.snapshot", uint64(len(immutables)))
 
 	// If no immutable MemTables, flush the active one if needed
 	if len(immutables) == 0 {
